@@ -4,6 +4,7 @@
 import TradingVerif.Lemmas.EnvStep
 import TradingVerif.Props.C01
 import TradingVerif.Props.C04
+import Mathlib.Algebra.Order.Field.Rat
 set_option linter.unusedSectionVars false
 set_option linter.unusedVariables false
 namespace TV
@@ -513,5 +514,35 @@ theorem record_times_increasing_episode (pw : K → K → K) (lg : K → K) (cfg
     (firstBatch_nonempty cfg.tx lo hi cfg.episodeLen start cur h0 hw)
   exact record_times_increasing pw lg cfg lo hi start clk acts r1 r2
 
+end
+
+/-! ### the premises are satisfiable: a concrete episode at `ℚ` -/
+section NonVacuity
+local instance : HasTrunc ℚ := ⟨fun q => ((q.num.tdiv q.den : Int) : ℚ)⟩
+
+def cfgQ : EnvCfg ℚ :=
+  { world := { spec := fun _ => { mult := 1, cashReq := 1, mr := 0 }, fixed := 0, prop := 0, markup := 0,
+               rateKey := "RATE", eps := 0 }
+    deposit := 100
+    tx := { timesteps := [0, 10, 20, 30]
+            events := [⟨0, .market (.quote "A" 0 (some 10) (some 10))⟩, ⟨10, .market (.quote "A" 10 (some 11) (some 11))⟩,
+                       ⟨20, .market (.quote "A" 20 (some 12) (some 12))⟩, ⟨30, .market (.quote "A" 30 (some 13) (some 13))⟩] }
+    space := { keys := ["A"], kind := .box 0 1, margin := 0 }
+    reward := .pnl }
+
+/-- two executed decisions leave two entries, stamped 0 and 10 (kernel evaluation) … -/
+example : ((([Action.vec [some (1/2 : ℚ)], .vec [some (1/4 : ℚ)]]).foldl
+    (fun s a => (envStep (fun x _ => x) id cfgQ s a).1) (envReset cfgQ 0 30 0 none)).broker.record.map (·.time)) = [0, 10] := by
+  decide +kernel
+
+/-- … and the theorem applies to that episode -/
+example : ((([Action.vec [some (1/2 : ℚ)], .vec [some (1/4 : ℚ)]]).foldl
+    (fun s a => (envStep (fun x _ => x) id cfgQ s a).1) (envReset cfgQ 0 30 0 none)).broker.record.map (·.time)).Pairwise (· < ·) :=
+  record_times_increasing_episode (fun x _ => x) id cfgQ 0 30 0 none _ 0 (by decide +kernel)
+    (Or.inr (by intro wu h; cases h))
+
+end NonVacuity
+
+section
 end
 end TV
